@@ -94,7 +94,17 @@ func cmdDev(args []string) {
 		}
 	}
 	if !*nosolve {
-		discharge(all, dischargeOpts{OutDir: verifDir + "/out/dev", TimeoutS: *timeout, Seed: 0, Workers: 8})
+		dopt := dischargeOpts{OutDir: verifDir + "/out/dev", TimeoutS: *timeout, Seed: 0, Workers: 8}
+		groups := map[*Script][]*Obligation{}
+		for _, o := range all {
+			groups[o.Script] = append(groups[o.Script], o)
+		}
+		var gl [][]*Obligation
+		for _, g := range groups {
+			gl = append(gl, g)
+		}
+		batchDischarge(gl, dopt, 2000)
+		discharge(all, dopt)
 	}
 	for _, r := range results {
 		fmt.Printf("== %s  (contract=%v, %d obligations, %d script lines, gen %.2fs)\n", r.Fn, r.HasContract, len(r.Obls), r.ScriptLines, r.GenTimeS)
